@@ -251,10 +251,17 @@ def rule_newest(ctx):
         ok = isinstance(op, ast.GtE) and l == "%s['modified']" % p and r == "self.latest_version['modified']" and any(
             isinstance(s, ast.Assign) and norm(s.targets[0]) == "self.latest_version" and norm(s.value) == p for s in ifn.body)
         ok = ok and "self.latest_version is None" in norm(ifn.test)
-    run.check(ok, R, key(fam.module.relpath, fam.qualname, "latest-is-max-modified"),
-              "the memory store's latest version is not the one with the greatest modified time (depends on insertion order)",
-              file=fam.module.relpath, line=fam.node.lineno, function=fam.qualname,
-              expected="if latest is None or obj['modified'] >= latest['modified']: latest = obj", found=found)
+    # the pointer matters for the property only while an answering method reads it
+    read_by_api = any(isinstance(x, ast.Attribute) and x.attr == "latest_version" for m_ in prog.cls(MEM + "::MemorySource").methods.values()
+                      for x in body_walk(m_.node))
+    if not read_by_api:
+        run.info(R, key(fam.module.relpath, fam.qualname, "latest-is-max-modified"),
+                 "the family's newest pointer is not read by get / all_versions / query any more: not judged")
+    else:
+        run.check(ok, R, key(fam.module.relpath, fam.qualname, "latest-is-max-modified"),
+                  "the memory store's latest version is not the one with the greatest modified time (depends on insertion order)",
+                  file=fam.module.relpath, line=fam.node.lineno, function=fam.qualname,
+                  expected="if latest is None or obj['modified'] >= latest['modified']: latest = obj", found=found)
     g = prog.cls(MEM + "::MemorySource").methods["get"]
     # lookup by id = the newest of the versions that pass the filters: either the family's newest pointer (then filtered), or
     # -- as the filesystem source does -- the maximum by `modified` over all_versions(id, filters)
